@@ -19,10 +19,11 @@
 (* A day is a function  slot -> origin of the block payload ("S" written   *)
 (* by the source's writer, "D" by the destination's); the empty function   *)
 (* is "day missing" (a day directory exists from its first block on).      *)
-(* Slots are the block timestamps of a scaled-down day: FirstSlot lies     *)
+(* Slots are representative block timestamps of a day: FirstSlot lies      *)
 (* within the completeness tolerance of the day start, LastSlot is the     *)
-(* last block interval of the day (its end is the day end); a slot in      *)
-(* Beyond is a block just outside the tolerance after the day start.       *)
+(* last block interval of the day (its end is the day end); an optional    *)
+(* slot between FirstSlot and the rest is a block just outside the         *)
+(* tolerance after the day start.                                          *)
 (* "Complete" = full-day coverage within the tolerance: the day has a      *)
 (* block within tolerance of the day start and its last block interval     *)
 (* ends within tolerance of the day end.                                   *)
@@ -123,10 +124,14 @@ Obs == [dst |-> DayRows(dst), sum |-> sum]
 
 (***************************************************************************)
 (* The as-built completeness test infers the block duration from the last  *)
-(* two block timestamps (300 s for a single block); on a grid where slot k *)
-(* (k > FirstSlot+Beyond) starts g(k) block lengths after the day start it *)
-(* accepts a day whose last block lies before LastSlot when the gap in     *)
-(* front of it is large.  Named deviation predicate, used only to LABEL    *)
+(* two block timestamps (300 s for a single block).  The harness places    *)
+(* FirstSlot at the day start (+ up to the tolerance), a Beyond slot at    *)
+(* tolerance + 1 s, the slots in between every 4 hours (04:00 ... 16:00)   *)
+(* and LastSlot at 23:55, the last 5-minute block of a day; GridPos gives  *)
+(* the position in 4-hour units.  The as-built test then accepts a day     *)
+(* whose last block lies hours before the day end when the gap in front of *)
+(* that block is at least as long as the time remaining to the day end.    *)
+(* Named deviation predicate, used only to LABEL                           *)
 (* cases (never for expectations).                                         *)
 (***************************************************************************)
 CONSTANT GridPos(_)       \* slot -> number of block lengths after day start (0 for the slots at the start)
